@@ -315,16 +315,20 @@ func (a Amount) String() string {
 	if a.exp > 1000 {
 		return "NA"
 	}
-	p := uint64(intPow(10, a.exp))
 	s := ""
 	v := uint64(a.value)
 	if a.value < 0 {
 		s = "-"
 		v = -v // two's complement, also correct for the minimum int64
 	}
-	v1 := v / p
-	v2 := v - (v1 * p)
-	return fmt.Sprintf("%s%d.%0*d", s, v1, a.exp, v2)
+	// place the decimal point in the digits, which also works when there
+	// are more decimals than a power of ten would fit into 64 bits
+	digits := strconv.FormatUint(v, 10)
+	e := int(a.exp)
+	if len(digits) <= e {
+		digits = strings.Repeat("0", e-len(digits)+1) + digits
+	}
+	return s + digits[:len(digits)-e] + "." + digits[len(digits)-e:]
 }
 
 // MinimalString provides the amount without any tailing 0s or '.'
